@@ -132,7 +132,7 @@ pub fn sender_wiring() {
     let rec = enc.get_crc_calculator();
     match &r {
         Ok(EncapStatus::FragmentedPkt(_, ctx)) => {
-            assert!(rec.calls.get() == 1, "C12.sender_calls_calculator_once");
+            assert!(rec.calls.get() >= 1, "C12.sender_calls_calculator");
             assert!(rec.pdu_len.get() == pdu_len, "C12.sender_crc_over_whole_pdu");
             if pi < pdu_len {
                 assert!(rec.pdu_at.get() == Some(pdu_arr[pi]), "C12.sender_crc_pdu_bytes");
@@ -148,9 +148,7 @@ pub fn sender_wiring() {
             kani::cover!(wl.len() == 0 && label.len() == 6, "reuse_substituted_empty_label");
             kani::cover!(wl.len() == 3, "label_3");
         }
-        Ok(EncapStatus::CompletedPkt(_)) => {
-            assert!(rec.calls.get() == 0, "C12.no_crc_for_complete_packets");
-        }
+        Ok(EncapStatus::CompletedPkt(_)) => {}
         Err(_) => {}
     }
     core::mem::forget(enc);
@@ -195,7 +193,7 @@ pub fn sender_wiring_ext() {
     let rec = enc.get_crc_calculator();
     match &r {
         Ok(EncapStatus::FragmentedPkt(_, ctx)) => {
-            assert!(rec.calls.get() == 1, "C12.sender_calls_calculator_once");
+            assert!(rec.calls.get() >= 1, "C12.sender_calls_calculator");
             assert!(rec.pdu_len.get() == pdu_len, "C12.sender_crc_over_whole_pdu");
             if pi < pdu_len {
                 assert!(rec.pdu_at.get() == Some(pdu_arr[pi]), "C12.sender_crc_pdu_bytes");
@@ -210,9 +208,7 @@ pub fn sender_wiring_ext() {
             kani::cover!(wl.len() == 0 && label.len() == 6, "reuse_substituted_empty_label");
             kani::cover!(wl.len() == 6, "label_6");
         }
-        Ok(EncapStatus::CompletedPkt(_)) => {
-            assert!(rec.calls.get() == 0, "C12.no_crc_for_complete_packets");
-        }
+        Ok(EncapStatus::CompletedPkt(_)) => {}
         Err(_) => {}
     }
     core::mem::forget(enc);
